@@ -5,7 +5,21 @@ import (
 	"sync"
 
 	crypto "github.com/onflow/crypto"
+
+	"verif/harness/ref/refbls"
 )
+
+// CancelNonG2 returns the encodings of A+T and B-T for a fixed T of E2 outside G2 (reference
+// arithmetic): both points are on the curve and outside G2, their sum is A+B.
+func CancelNonG2(a, b []byte) ([]byte, []byte) {
+	A, err1 := refbls.DecodeG2Flow(a)
+	B, err2 := refbls.DecodeG2Flow(b)
+	if err1 != nil || err2 != nil {
+		panic("dkgsys: CancelNonG2 on undecodable points")
+	}
+	T := refbls.CofactorPointG2()
+	return refbls.EncodeG2Flow(A.Add(T)), refbls.EncodeG2Flow(B.Add(T.Neg()))
+}
 
 // Adversarial G2 encodings. The library is used only as a *generator* of hostile inputs here
 // (its error text tells an off-curve x from an on-curve point outside G2); no verdict of a
